@@ -65,32 +65,72 @@ fn stored_inline<T>(v: &T, s: &str) -> bool {
     !s.is_empty() && p >= base && p + s.len() <= base + size_of::<T>()
 }
 
+/// Replayable description of what is being processed; only rendered to JSON on a violation.
+#[derive(Clone)]
+enum Case<'a> {
+    Input(&'a [u8]),
+    Archive(&'a [u8]),
+    Add(&'a str, &'a str, bool),
+}
+
+impl Case<'_> {
+    fn to_json(&self) -> Value {
+        match self {
+            Case::Input(b) => json!({"kind": "input", "hex": hex(b)}),
+            Case::Archive(b) => json!({"kind": "archive", "hex": hex(b)}),
+            Case::Add(a, b, st) => json!({"kind": "add", "a_hex": hex(a.as_bytes()), "b_hex": hex(b.as_bytes()), "a_static": st}),
+        }
+    }
+}
+
+/// Outcome counters per (type, producer, tag, ok); turned into named counters once per shard.
+#[derive(Default)]
+struct Tally(Vec<(Kind, &'static str, &'static str, bool, u64)>);
+
+impl Tally {
+    fn hit(&mut self, kind: Kind, producer: &'static str, tag: &'static str, ok: bool) {
+        for e in &mut self.0 {
+            if e.0 == kind && e.3 == ok && std::ptr::eq(e.1, producer) && std::ptr::eq(e.2, tag) {
+                e.4 += 1;
+                return;
+            }
+        }
+        self.0.push((kind, producer, tag, ok, 1));
+    }
+    fn flush(&mut self, m: &mut Monitor) {
+        for (kind, producer, tag, ok, n) in self.0.drain(..) {
+            let sep = if tag.is_empty() { "" } else { "-" };
+            m.count(&format!("{}_{}_{producer}{sep}{tag}", if ok { "ok" } else { "err" }, kind.name()), n);
+        }
+    }
+}
+
 struct Ctx<'a> {
     m: &'a mut Monitor,
-    /// Replayable description of the input that is being processed.
-    case: Value,
+    tally: &'a mut Tally,
+    case: Case<'a>,
 }
 
 impl Ctx<'_> {
     fn viol(&mut self, sig: &str, extra: Value) {
-        let case = self.case.clone();
+        let case = self.case.to_json();
         self.m.violation(sig, json!({"case": case, "info": extra}));
     }
 
     /// A producer returned a value: check the invariant (and the expected content if known).
-    fn produced(&mut self, kind: Kind, producer: &str, got: &str, want: Option<&str>) {
+    fn produced(&mut self, kind: Kind, producer: &'static str, tag: &'static str, got: &str, want: Option<&str>) {
         self.m.eval();
-        self.m.count(&format!("ok_{}_{producer}", kind.name()), 1);
+        self.tally.hit(kind, producer, tag, true);
         if !kind.inv(got) {
             self.viol(
-                &format!("{}-invariant-broken-by:{producer}", kind.name()),
+                &format!("{}-invariant-broken-by:{producer}-{tag}", kind.name()),
                 json!({"value_hex": hex(got.as_bytes())}),
             );
         }
         if let Some(w) = want {
             if w != got {
                 self.viol(
-                    &format!("{}-content-changed-by:{producer}", kind.name()),
+                    &format!("{}-content-changed-by:{producer}-{tag}", kind.name()),
                     json!({"value_hex": hex(got.as_bytes()), "want_hex": hex(w.as_bytes())}),
                 );
             }
@@ -99,12 +139,12 @@ impl Ctx<'_> {
 
     /// A producer refused the input. Only recorded; rejecting is always allowed by the property,
     /// but rejecting an input that satisfies the invariant is counted so that it is visible.
-    fn refused(&mut self, kind: Kind, producer: &str, input_valid: Option<bool>) {
+    fn refused(&mut self, kind: Kind, producer: &'static str, tag: &'static str, input_valid: Option<bool>) {
         self.m.eval();
-        self.m.count(&format!("err_{}_{producer}", kind.name()), 1);
+        self.tally.hit(kind, producer, tag, false);
         if input_valid == Some(true) {
             self.m.count("valid_input_refused", 1);
-            self.m.seen("valid_input_refused_by", &format!("{}:{producer}", kind.name()));
+            self.m.seen("valid_input_refused_by", &format!("{}:{producer}-{tag}", kind.name()));
         }
     }
 
@@ -119,18 +159,19 @@ impl Ctx<'_> {
 fn drive(
     cx: &mut Ctx<'_>,
     kind: Kind,
-    producer: &str,
+    producer: &'static str,
+    tag: &'static str,
     want: Option<&str>,
     input_valid: Option<bool>,
     f: impl FnOnce() -> Result<String, ()>,
 ) -> bool {
     match catch(f) {
         Ok(Ok(got)) => {
-            cx.produced(kind, producer, &got, want);
+            cx.produced(kind, producer, tag, &got, want);
             true
         }
         Ok(Err(())) => {
-            cx.refused(kind, producer, input_valid);
+            cx.refused(kind, producer, tag, input_valid);
             false
         }
         Err(p) => {
@@ -156,7 +197,10 @@ fn json_all_escaped(s: &str) -> String {
     let mut out = String::with_capacity(s.len() * 6 + 2);
     out.push('"');
     for u in s.encode_utf16() {
-        out.push_str(&format!("\\u{u:04x}"));
+        out.push_str("\\u");
+        for sh in [12, 8, 4, 0] {
+            out.push(char::from_digit(((u >> sh) & 0xf) as u32, 16).unwrap());
+        }
     }
     out.push('"');
     out
@@ -206,16 +250,16 @@ fn hostile_archive(bytes: &[u8]) -> Option<AlignedVec> {
 /// Checked access of `buf` as an archived Text and Identifier; every success is held against the
 /// invariant, then deserialized (all three deserialize entry points) and held against it again.
 /// Returns (text_ok, ident_ok).
-fn access_archive(cx: &mut Ctx<'_>, buf: &[u8], tag: &str, want: Option<&str>) -> (bool, bool) {
+fn access_archive(cx: &mut Ctx<'_>, buf: &[u8], tag: &'static str, want: Option<&str>) -> (bool, bool) {
     let valid_t = want.map(text_inv);
     let valid_i = want.map(ident_inv);
-    let t = drive(cx, Kind::Text, &format!("rkyv-access-{tag}"), want, valid_t, || {
+    let t = drive(cx, Kind::Text, "rkyv-access", tag, want, valid_t, || {
         let a = rkyv::access::<Archived<Text>, RErr>(buf).map_err(|_| ())?;
         Ok(a.as_str().to_owned())
     });
     if t {
         let changed = std::cell::Cell::new(false);
-        drive(cx, Kind::Text, &format!("rkyv-deserialize-{tag}"), want, valid_t, || {
+        drive(cx, Kind::Text, "rkyv-deserialize", tag, want, valid_t, || {
             let a = rkyv::access::<Archived<Text>, RErr>(buf).map_err(|_| ())?;
             let d = rkyv::deserialize::<Text, RErr>(a).map_err(|_| ())?;
             changed.set(d.as_str() != a.as_str());
@@ -224,24 +268,24 @@ fn access_archive(cx: &mut Ctx<'_>, buf: &[u8], tag: &str, want: Option<&str>) -
         if changed.get() {
             cx.viol("text-rkyv-deserialize-differs-from-archived", json!(null));
         }
-        drive(cx, Kind::Text, &format!("rkyv-from_bytes-{tag}"), want, valid_t, || {
+        drive(cx, Kind::Text, "rkyv-from_bytes", tag, want, valid_t, || {
             text_of(rkyv::from_bytes::<Text, RErr>(buf))
         });
     }
-    let i = drive(cx, Kind::Ident, &format!("rkyv-access-{tag}"), want, valid_i, || {
+    let i = drive(cx, Kind::Ident, "rkyv-access", tag, want, valid_i, || {
         let a = rkyv::access::<Archived<Identifier>, RErr>(buf).map_err(|_| ())?;
         Ok(a.as_str().to_owned())
     });
     if i {
-        drive(cx, Kind::Ident, &format!("rkyv-deserialize-{tag}"), want, valid_i, || {
+        drive(cx, Kind::Ident, "rkyv-deserialize", tag, want, valid_i, || {
             let a = rkyv::access::<Archived<Identifier>, RErr>(buf).map_err(|_| ())?;
             ident_of(rkyv::deserialize::<Identifier, RErr>(a))
         });
-        drive(cx, Kind::Ident, &format!("rkyv-inherent-deserialize-{tag}"), want, valid_i, || {
+        drive(cx, Kind::Ident, "rkyv-inherent-deserialize", tag, want, valid_i, || {
             let a = rkyv::access::<Archived<Identifier>, RErr>(buf).map_err(|_| ())?;
             Ok(a.deserialize().as_str().to_owned())
         });
-        drive(cx, Kind::Ident, &format!("rkyv-from_bytes-{tag}"), want, valid_i, || {
+        drive(cx, Kind::Ident, "rkyv-from_bytes", tag, want, valid_i, || {
             ident_of(rkyv::from_bytes::<Identifier, RErr>(buf))
         });
     }
@@ -286,15 +330,15 @@ fn corrupt(rng: &mut Rng, src: &[u8]) -> Vec<u8> {
     v
 }
 
-fn check_archive_case(cx: &mut Ctx<'_>, buf: &[u8], tag: &str) {
+fn check_archive_case(cx: &mut Ctx<'_>, buf: &[u8], tag: &'static str) {
     let a = aligned(buf);
     let (t, i) = access_archive(cx, &a, tag, None);
     cx.m.count(if t || i { "rkyv_corrupt_accepted" } else { "rkyv_corrupt_rejected" }, 1);
 }
 
 /// Drive every producer with one input. `mutations`: number of corrupted archives derived from it.
-fn check_input(m: &mut Monitor, bytes: &[u8], rng: &mut Rng, mutations: usize) {
-    let mut cx = Ctx { m, case: json!({"kind": "input", "hex": hex(bytes)}) };
+fn check_input(m: &mut Monitor, tally: &mut Tally, bytes: &[u8], rng: &mut Rng, mutations: usize) {
+    let mut cx = Ctx { m, tally, case: Case::Input(bytes) };
     let cx = &mut cx;
     let utf8 = std::str::from_utf8(bytes).ok();
     let tv = utf8.map(text_inv);
@@ -302,19 +346,19 @@ fn check_input(m: &mut Monitor, bytes: &[u8], rng: &mut Rng, mutations: usize) {
 
     if let Some(s) = utf8 {
         cx.m.count("inputs_utf8", 1);
-        let t_ok = drive(cx, Kind::Text, "from_str", Some(s), tv, || text_of(Text::from_str(s)));
-        drive(cx, Kind::Text, "try_from-String", Some(s), tv, || text_of(Text::try_from(s.to_owned())));
-        let i_ok = drive(cx, Kind::Ident, "from_str", Some(s), iv, || ident_of(Identifier::from_str(s)));
-        drive(cx, Kind::Ident, "try_from-String", Some(s), iv, || ident_of(Identifier::try_from(s.to_owned())));
+        let t_ok = drive(cx, Kind::Text, "from_str", "", Some(s), tv, || text_of(Text::from_str(s)));
+        drive(cx, Kind::Text, "try_from-String", "", Some(s), tv, || text_of(Text::try_from(s.to_owned())));
+        let i_ok = drive(cx, Kind::Ident, "from_str", "", Some(s), iv, || ident_of(Identifier::from_str(s)));
+        drive(cx, Kind::Ident, "try_from-String", "", Some(s), iv, || ident_of(Identifier::try_from(s.to_owned())));
         if t_ok {
             cx.m.count(if s.len() <= MAX_INLINE { "text_len_le_inline" } else { "text_len_gt_inline" }, 1);
             if s.len() == MAX_INLINE || s.len() == MAX_INLINE + 1 {
                 cx.m.count("text_at_inline_threshold", 1);
             }
-            drive(cx, Kind::Ident, "try_from-Text", Some(s), iv, || {
+            drive(cx, Kind::Ident, "try_from-Text", "", Some(s), iv, || {
                 ident_of(Identifier::try_from(Text::from_str(s).map_err(|_| ())?))
             });
-            drive(cx, Kind::Text, "clone", Some(s), tv, || {
+            drive(cx, Kind::Text, "clone", "", Some(s), tv, || {
                 let t = Text::from_str(s).map_err(|_| ())?;
                 let c = t.clone();
                 drop(t);
@@ -328,10 +372,10 @@ fn check_input(m: &mut Monitor, bytes: &[u8], rng: &mut Rng, mutations: usize) {
             }
         }
         if i_ok {
-            drive(cx, Kind::Text, "from-Identifier", Some(s), tv, || {
+            drive(cx, Kind::Text, "from-Identifier", "", Some(s), tv, || {
                 Ok(Text::from(Identifier::from_str(s).map_err(|_| ())?).as_str().to_owned())
             });
-            drive(cx, Kind::Ident, "clone", Some(s), iv, || {
+            drive(cx, Kind::Ident, "clone", "", Some(s), iv, || {
                 let t = Identifier::from_str(s).map_err(|_| ())?;
                 let c = t.clone();
                 drop(t);
@@ -342,26 +386,26 @@ fn check_input(m: &mut Monitor, bytes: &[u8], rng: &mut Rng, mutations: usize) {
         // serde_json: borrowed (no escapes), escaped, every char escaped, Value, reader.
         let plain = serde_json::to_string(s).expect("json string");
         let escaped = json_all_escaped(s);
-        for (tag, doc) in [("json", &plain), ("json-escaped", &escaped)] {
-            let ok = drive(cx, Kind::Text, tag, Some(s), tv, || text_of(serde_json::from_str::<Text>(doc)));
+        for (prod, doc) in [("json", &plain), ("json-escaped", &escaped)] {
+            let ok = drive(cx, Kind::Text, prod, "", Some(s), tv, || text_of(serde_json::from_str::<Text>(doc)));
             if !ok && tv == Some(false) {
                 cx.m.count("json_nul_rejected", 1);
             }
-            let ok = drive(cx, Kind::Ident, tag, Some(s), iv, || ident_of(serde_json::from_str::<Identifier>(doc)));
+            let ok = drive(cx, Kind::Ident, prod, "", Some(s), iv, || ident_of(serde_json::from_str::<Identifier>(doc)));
             if !ok && iv == Some(false) {
                 cx.m.count("json_bad_ident_rejected", 1);
             }
         }
-        drive(cx, Kind::Text, "json-value", Some(s), tv, || {
+        drive(cx, Kind::Text, "json-value", "", Some(s), tv, || {
             text_of(serde_json::from_value::<Text>(Value::String(s.to_owned())))
         });
-        drive(cx, Kind::Ident, "json-value", Some(s), iv, || {
+        drive(cx, Kind::Ident, "json-value", "", Some(s), iv, || {
             ident_of(serde_json::from_value::<Identifier>(Value::String(s.to_owned())))
         });
-        drive(cx, Kind::Text, "json-reader", Some(s), tv, || {
+        drive(cx, Kind::Text, "json-reader", "", Some(s), tv, || {
             text_of(serde_json::from_reader::<_, Text>(plain.as_bytes()))
         });
-        drive(cx, Kind::Ident, "json-reader", Some(s), iv, || {
+        drive(cx, Kind::Ident, "json-reader", "", Some(s), iv, || {
             ident_of(serde_json::from_reader::<_, Identifier>(plain.as_bytes()))
         });
     } else {
@@ -374,14 +418,14 @@ fn check_input(m: &mut Monitor, bytes: &[u8], rng: &mut Rng, mutations: usize) {
         doc.push(b'"');
         doc.extend_from_slice(bytes);
         doc.push(b'"');
-        drive(cx, Kind::Text, "json-raw-bytes", None, None, || text_of(serde_json::from_slice::<Text>(&doc)));
-        drive(cx, Kind::Ident, "json-raw-bytes", None, None, || ident_of(serde_json::from_slice::<Identifier>(&doc)));
+        drive(cx, Kind::Text, "json-raw-bytes", "", None, None, || text_of(serde_json::from_slice::<Text>(&doc)));
+        drive(cx, Kind::Ident, "json-raw-bytes", "", None, None, || ident_of(serde_json::from_slice::<Identifier>(&doc)));
     }
 
     // postcard: length-prefixed bytes, valid UTF-8 or not.
     {
         let frame = postcard_str_frame(bytes);
-        let ok = drive(cx, Kind::Text, "postcard", utf8, tv, || text_of(postcard::from_bytes::<Text>(&frame)));
+        let ok = drive(cx, Kind::Text, "postcard", "", utf8, tv, || text_of(postcard::from_bytes::<Text>(&frame)));
         if utf8.is_none() {
             cx.m.count("postcard_invalid_utf8", 1);
             if ok {
@@ -390,14 +434,14 @@ fn check_input(m: &mut Monitor, bytes: &[u8], rng: &mut Rng, mutations: usize) {
         } else if !ok && tv == Some(false) {
             cx.m.count("postcard_nul_rejected", 1);
         }
-        let ok = drive(cx, Kind::Ident, "postcard", utf8, iv, || ident_of(postcard::from_bytes::<Identifier>(&frame)));
+        let ok = drive(cx, Kind::Ident, "postcard", "", utf8, iv, || ident_of(postcard::from_bytes::<Identifier>(&frame)));
         if ok && utf8.is_none() {
             cx.viol("ident-postcard-accepted-invalid-utf8", json!(null));
         }
         // Truncated frame (length says more than there is).
         if !bytes.is_empty() {
             let cut = &frame[..frame.len() - 1];
-            drive(cx, Kind::Text, "postcard-truncated", None, None, || text_of(postcard::from_bytes::<Text>(cut)));
+            drive(cx, Kind::Text, "postcard-truncated", "", None, None, || text_of(postcard::from_bytes::<Text>(cut)));
         }
     }
 
@@ -408,7 +452,7 @@ fn check_input(m: &mut Monitor, bytes: &[u8], rng: &mut Rng, mutations: usize) {
         let c: &CStr = CStr::from_bytes_until_nul(&z).expect("has nul");
         let prefix = c.to_bytes();
         let want = std::str::from_utf8(prefix).ok();
-        let ok = drive(cx, Kind::Text, "try_from-CStr", want, want.map(text_inv), || text_of(Text::try_from(c)));
+        let ok = drive(cx, Kind::Text, "try_from-CStr", "", want, want.map(text_inv), || text_of(Text::try_from(c)));
         match want {
             None => {
                 cx.m.count("cstr_invalid_utf8", 1);
@@ -421,7 +465,7 @@ fn check_input(m: &mut Monitor, bytes: &[u8], rng: &mut Rng, mutations: usize) {
         }
         if let Ok(owned) = CString::new(bytes) {
             let w = owned.to_str().ok();
-            drive(cx, Kind::Text, "try_from-CString", w, w.map(text_inv), || text_of(Text::try_from(owned.as_c_str())));
+            drive(cx, Kind::Text, "try_from-CString", "", w, w.map(text_inv), || text_of(Text::try_from(owned.as_c_str())));
         }
     }
 
@@ -474,9 +518,8 @@ fn check_input(m: &mut Monitor, bytes: &[u8], rng: &mut Rng, mutations: usize) {
         }
         let src = &sources[k % sources.len()];
         let bad = corrupt(rng, src);
-        let saved = std::mem::replace(&mut cx.case, json!({"kind": "archive", "hex": hex(&bad)}));
-        check_archive_case(cx, &bad, "corrupt");
-        cx.case = saved;
+        let mut sub = Ctx { m: &mut *cx.m, tally: &mut *cx.tally, case: Case::Archive(&bad) };
+        check_archive_case(&mut sub, &bad, "corrupt");
     }
 }
 
@@ -486,8 +529,9 @@ fn check_input(m: &mut Monitor, bytes: &[u8], rng: &mut Rng, mutations: usize) {
 
 const EDGE_LENS: &[usize] = &[1, 2, 7, 8, 9, 15, 16, 21, 22, 23, 24, 25, 31, 32, 33, 44, 45, 46, 63, 64, 255, 256, 257];
 
-fn gen_len(rng: &mut Rng) -> usize {
+fn gen_len(rng: &mut Rng, small: bool) -> usize {
     match rng.below(4) {
+        0 if small => *rng.pick(&EDGE_LENS[..12]),
         0 => *rng.pick(EDGE_LENS),
         1 => rng.urange(MAX_INLINE - 2, MAX_INLINE + 2),
         _ => rng.urange(0, 48),
@@ -548,7 +592,9 @@ fn insert_at(rng: &mut Rng, s: &str, what: &str, place: u64) -> String {
 }
 
 fn gen_input(rng: &mut Rng, max_long: usize) -> (&'static str, Vec<u8>) {
-    let len = gen_len(rng);
+    // `small` (Miri): interpretation cost grows with length, the thresholds are all below 26.
+    let small = max_long <= 256;
+    let len = gen_len(rng, small);
     match rng.weighted(&[1, 8, 10, 10, 10, 6, 6, 10, 1, 5]) {
         0 => ("empty", vec![]),
         1 => ("ascii", gen_ascii(rng, len).into_bytes()),
@@ -790,9 +836,29 @@ fn variants(rng: &mut Rng, s: &str, ident: bool) -> Vec<String> {
 
 /// One pool round: statics + parsed twins + neighbours + random values + Add / serde / rkyv made
 /// values, then the all-pairs oracle for Text and for Identifier.
-fn pool_round(m: &mut Monitor, seed: u64, round: u64) {
+/// Keep a window of `cap` entries around a static entry in content order: equal contents and
+/// near neighbours (prefix, last byte differs) are adjacent there, so the interesting
+/// cross-representation pairs survive the cut. Even rounds centre on a long (heap twin) static,
+/// odd rounds on a short (inline twin) one.
+fn window<T: Val>(rng: &mut Rng, pool: &mut Vec<Entry<T>>, cap: usize, round: u64) {
+    if cap == 0 || pool.len() <= cap {
+        return;
+    }
+    pool.sort_by(|a, b| a.v.s().cmp(b.v.s()));
+    let want_long = round % 2 == 0;
+    let centres: Vec<usize> = pool.iter().enumerate()
+        .filter(|(_, e)| e.repr == "static" && (e.v.s().len() > MAX_INLINE) == want_long && !e.v.s().is_empty())
+        .map(|(i, _)| i)
+        .collect();
+    let c = if centres.is_empty() { rng.usize(pool.len()) } else { *rng.pick(&centres) };
+    let lo = c.saturating_sub(cap / 2).min(pool.len() - cap);
+    pool.drain(..lo);
+    pool.truncate(cap);
+}
+
+fn pool_round(m: &mut Monitor, seed: u64, round: u64, cap: usize) {
     let mut rng = Rng::new(seed).fork(0x9001).fork(round);
-    let case = json!({"kind": "pool", "seed": seed, "round": round});
+    let case = json!({"kind": "pool", "seed": seed, "round": round, "cap": cap});
     let mut tp: Vec<Entry<Text>> = vec![];
     let mut ip: Vec<Entry<Identifier>> = vec![];
     let mut tstr: Vec<String> = vec![];
@@ -863,6 +929,8 @@ fn pool_round(m: &mut Monitor, seed: u64, round: u64) {
         }
         ip.push(Entry { v: t, repr, how: "from_str" });
     }
+    window(&mut rng, &mut tp, cap, round);
+    window(&mut rng, &mut ip, cap, round);
     // The representation assumed by construction is confirmed from outside where that is possible.
     for e in &tp {
         if !e.v.is_empty() {
@@ -884,12 +952,12 @@ fn pool_round(m: &mut Monitor, seed: u64, round: u64) {
 // Concatenation
 // ---------------------------------------------------------------------------
 
-fn check_add(m: &mut Monitor, a: &str, b: &str, a_static: Option<&Text>) {
-    let mut cx = Ctx { m, case: json!({"kind": "add", "a_hex": hex(a.as_bytes()), "b_hex": hex(b.as_bytes()), "a_static": a_static.is_some()}) };
+fn check_add(m: &mut Monitor, tally: &mut Tally, a: &str, b: &str, a_static: Option<&Text>) {
+    let mut cx = Ctx { m, tally, case: Case::Add(a, b, a_static.is_some()) };
     let (Ok(ta), Ok(tb)) = (Text::from_str(a), Text::from_str(b)) else { return };
     let ta = a_static.cloned().unwrap_or(ta);
     let want = format!("{a}{b}");
-    let ok = drive(&mut cx, Kind::Text, "add", Some(&want), Some(true), || {
+    let ok = drive(&mut cx, Kind::Text, "add", "", Some(&want), Some(true), || {
         let z = &ta + &tb;
         // operands stay intact
         if ta.as_str() != a || tb.as_str() != b { return Err(()); }
@@ -904,7 +972,7 @@ fn check_add(m: &mut Monitor, a: &str, b: &str, a_static: Option<&Text>) {
     if want.len() <= MAX_INLINE {
         cx.m.count("add_stays_inline", 1);
     }
-    cx.m.nontrivial(hash_of(&("add", a, b)));
+    cx.m.nontrivial(mix2(hash_of(&a), hash_of(&b)));
 }
 
 // ---------------------------------------------------------------------------
@@ -916,10 +984,27 @@ const SHARDS: u64 = 32;
 fn run_shard(m: &mut Monitor, seed: u64, shard: u64, inputs: u64, max_long: usize, mutations: usize) {
     let mut rng = Rng::new(seed).fork(32).fork(shard);
     let mut prev: Vec<String> = vec![];
-    for n in 0..inputs {
-        let (class, bytes) = gen_input(&mut rng, max_long);
+    let mut tally = Tally::default();
+    let tally = &mut tally;
+    // Shard 0 starts with a fixed list that touches every branch of the oracle once, so that even
+    // the small Miri slice covers all producers on both sides of both thresholds.
+    let fixed: &[&[u8]] = if shard == 0 {
+        &[
+            b"", b"a", b"abcdefgh", b"abcdefghi", b"abcdefghijklmnopqrstuv", b"abcdefghijklmnopqrstuvw",
+            b"a\0b", b"\0", b"abcdefghijklmnopqrstuv\0", b"\0abcdefghijklmnopqrstuvwxyz", b"9abc", b"_a",
+            "\u{e9}t\u{e9}".as_bytes(), b"a_long_identifier_0123456789_xyz", b"ab\\u0000cd", b"not an identifier, but text",
+            b"\xff\xfe", b"abcdefghijkl\xc0\x80mnopqrstuvwxyz", b"ab\xffcd", b"id\0entifier_with_nul_inside_it",
+        ]
+    } else {
+        &[]
+    };
+    for n in 0..inputs + fixed.len() as u64 {
+        let (class, bytes) = match fixed.get(n as usize) {
+            Some(b) => ("fixed", b.to_vec()),
+            None => gen_input(&mut rng, max_long),
+        };
         m.count(&format!("class_{class}"), 1);
-        check_input(m, &bytes, &mut rng, mutations);
+        check_input(m, tally, &bytes, &mut rng, mutations);
         let utf8 = std::str::from_utf8(&bytes).ok();
         if !bytes.is_empty() && utf8.is_some() {
             // valid UTF-8: acceptance / rejection was decided by the validators, not by decoding
@@ -928,14 +1013,14 @@ fn run_shard(m: &mut Monitor, seed: u64, shard: u64, inputs: u64, max_long: usiz
         if let Some(s) = utf8 {
             if text_inv(s) && s.len() <= 300 {
                 if let Some(p) = prev.get(rng.usize(prev.len().max(1))) {
-                    check_add(m, p, s, None);
-                    check_add(m, s, p, None);
+                    check_add(m, tally, p, s, None);
+                    check_add(m, tally, s, p, None);
                 }
                 if prev.len() < 16 { prev.push(s.to_owned()); } else { let i = rng.usize(16); prev[i] = s.to_owned(); }
                 if n % 64 == 0 {
-                    check_add(m, STATIC_SHORT.as_str(), s, Some(&STATIC_SHORT));
-                    check_add(m, STATIC_LONG.as_str(), s, Some(&STATIC_LONG));
-                    check_add(m, "", s, Some(&Text::new()));
+                    check_add(m, tally, STATIC_SHORT.as_str(), s, Some(&STATIC_SHORT));
+                    check_add(m, tally, STATIC_LONG.as_str(), s, Some(&STATIC_LONG));
+                    check_add(m, tally, "", s, Some(&Text::new()));
                 }
             }
         }
@@ -943,6 +1028,7 @@ fn run_shard(m: &mut Monitor, seed: u64, shard: u64, inputs: u64, max_long: usiz
             m.sample(|| json!({"class": class, "input_hex": hex(&bytes[..bytes.len().min(64)]), "len": bytes.len()}));
         }
     }
+    tally.flush(m);
 }
 
 fn replay(m: &mut Monitor, r: &Value, seed: u64) {
@@ -955,13 +1041,15 @@ fn replay(m: &mut Monitor, r: &Value, seed: u64) {
         c = &c["pair"]["case"];
     }
     let bytes = |k: &str| unhex(c[k].as_str().unwrap_or("")).unwrap_or_default();
+    let mut tally = Tally::default();
     match c["kind"].as_str() {
-        Some("input") => check_input(m, &bytes("hex"), &mut Rng::new(seed), 0),
+        Some("input") => check_input(m, &mut tally, &bytes("hex"), &mut Rng::new(seed), 0),
         Some("archive") => {
-            let mut cx = Ctx { m, case: c.clone() };
-            check_archive_case(&mut cx, &bytes("hex"), "corrupt");
+            let b = bytes("hex");
+            let mut cx = Ctx { m, tally: &mut tally, case: Case::Archive(&b) };
+            check_archive_case(&mut cx, &b, "corrupt");
         }
-        Some("pool") => pool_round(m, c["seed"].as_u64().unwrap_or(seed), c["round"].as_u64().unwrap_or(0)),
+        Some("pool") => pool_round(m, c["seed"].as_u64().unwrap_or(seed), c["round"].as_u64().unwrap_or(0), c["cap"].as_u64().unwrap_or(0) as usize),
         Some("add") => {
             let (a, b) = (bytes("a_hex"), bytes("b_hex"));
             let (a, b) = (String::from_utf8_lossy(&a).into_owned(), String::from_utf8_lossy(&b).into_owned());
@@ -970,10 +1058,11 @@ fn replay(m: &mut Monitor, r: &Value, seed: u64) {
             } else {
                 None
             };
-            check_add(m, &a, &b, st.as_ref());
+            check_add(m, &mut tally, &a, &b, st.as_ref());
         }
         other => panic!("unknown replay case kind {other:?}"),
     }
+    tally.flush(m);
 }
 
 fn main() {
@@ -982,7 +1071,7 @@ fn main() {
         "C32",
         "inputs = generated byte strings (empty, ASCII, identifiers, near-identifiers with leading digit/underscore/unicode/NUL, NUL at start/middle/end, random bytes, broken UTF-8, unicode, long, JSON-sensitive; lengths biased to the 22-byte inline and 8-byte rkyv-inline thresholds) pushed through FromStr, TryFrom<String>/<Text>/<&CStr>, From<Identifier>, Clone, serde_json (plain, all-escaped, Value, reader, raw bytes), postcard (valid and invalid UTF-8, truncated), rkyv access/deserialize/from_bytes on honest, hostile (String archive read as Text/Identifier) and corrupted archives, and Add; plus pools of static (text!/ident!), inline and heap values compared pairwise (eq, cmp, const_eq, PartialEq<str>, hash) against str. non-trivial = distinct valid-UTF-8 non-empty input (outcome decided by the validator), distinct Add operand pair, or distinct cross-representation pair with related contents (equal / prefix / last byte differs)",
     )
-    .min(200)
+    .min(if cfg!(miri) { 40 } else { 200 })
     .require("ok_text_from_str", "Text accepted")
     .require("err_text_from_str", "Text with NUL refused")
     .require("ok_ident_from_str", "Identifier accepted")
@@ -1006,10 +1095,17 @@ fn main() {
         replay(&mut m, &r, args.seed);
         finish_all(&args, vec![m]);
     }
-    let per_shard = (args.n(200_000, 3_000_000) / SHARDS).max(1);
-    let max_long = args.n(100_000, 1_000_000) as usize;
-    let mutations = 3;
-    let rounds = args.n(24, 240).max(2);
+    // Under Miri (scale 1) the defaults come to 32 x 2 inputs of at most 256 bytes, one corrupted
+    // archive per input and 4 pool rounds cut to a 16-entry window; `--set inputs= / pool_rounds= /
+    // pool_cap=` override. Miri is there for the unsafe paths (inline slice, ArcStr alloc/dealloc,
+    // archive casts), which every input exercises; the bulk sampling is the native engines' job.
+    let miri = cfg!(miri);
+    let inputs = args.get_u64("inputs", args.n(200_000, 3_000_000) / if miri { 32 } else { 1 });
+    let per_shard = (inputs / SHARDS).max(1);
+    let max_long = if miri { 256 } else { args.n(100_000, 1_000_000) as usize };
+    let mutations = if miri { 1 } else { 3 };
+    let rounds = args.get_u64("pool_rounds", args.n(24, 240).max(if miri { 4 } else { 2 }));
+    let cap = args.get_u64("pool_cap", if miri { 16 } else { 0 }) as usize;
     let threads = cores().min(SHARDS as usize);
     let parts = par_shards(threads, |i, n| {
         let mut w = m.worker();
@@ -1020,7 +1116,7 @@ fn main() {
         }
         let mut round = i as u64;
         while round < rounds {
-            pool_round(&mut w, args.seed, round);
+            pool_round(&mut w, args.seed, round, cap);
             round += n as u64;
         }
         w
